@@ -101,6 +101,10 @@ def verdict_clauses(expected: List[list], recorded: List[list], prog: dict) -> L
             res.append(("inv.unexpected_evaluation", what))
         elif ecls == "ret" and rcls == "ret" and ev_ != rv_:
             res.append(("ret.result_identity", what))
+        elif rcls in ("TypeError", "RuntimeError", "RuntimeErrorC") and ecls != rcls and (ecls == "ret" or ecls in VIOLATION_CLS):
+            # the caller was due the result or the contract's error; building a message / binding the arguments of a
+            # condition produced an error of the library instead
+            res.append(("msg.replaced_by_other_exception", what))
         elif ecls in VIOLATION_CLS and rcls not in ("ret", ecls):
             # a violation was due in the contract's configured form; the caller got something of another class
             res.append(("err.form_dispatch", what))
